@@ -443,6 +443,12 @@ def rewrite_fn(text, contract, report, make_pub=True):
             raise ExtractError(f"lost anchor in {contract['name']}: {anchor!r}")
         p = pos if where_ == "before" else pos + len(anchor)
         edits.append(Edit(p, p, " proof { " + ghost.strip() + " } ", "R5"))
+    if contract.get("stub"):
+        # assumed contract: the real signature is kept, the body is not verified
+        edits = [e for e in edits if e.end <= st[body_open].start]
+        edits.append(Edit(st[body_open].start, st[body_close].end, "{ unimplemented!() }", "STUB"))
+        report.append({"rule": "STUB", "before": "<body>", "after": "unimplemented!() under external_body: " + contract["stub"]})
+        contract = dict(contract); contract["attrs"] = list(contract.get("attrs", [])) + ["verifier::external_body"]
     new = apply_edits(text, edits)
     attrs = "".join(f"#[{a}]\n" for a in contract.get("attrs", []))
     new = attrs + new
